@@ -69,6 +69,9 @@ type decResult struct {
 	panicMsg string
 	capCells int // capacity of a returned slice (allocation observed)
 	item     string
+	// rer renders the value the call handed out once more, from the very slice / string the caller holds:
+	// a result must not change when the same decoder is used again (nil for values passed by value)
+	rer func() string
 }
 
 // decCall runs one decoder method under recover.
@@ -80,6 +83,7 @@ func decCall(d *csproto.Decoder, op decOp) (res decResult) {
 	}()
 	var item string
 	var err error
+	var rer func() string
 	capCells := 0
 	switch op.name {
 	case "tag":
@@ -97,11 +101,13 @@ func decCall(d *csproto.Decoder, op decOp) (res decResult) {
 	case "string":
 		var v string
 		v, err = d.DecodeString()
-		item = "x" + fw.Hex([]byte(v))
+		rer = func() string { return "x" + fw.Hex([]byte(v)) }
+		item = rer()
 	case "bytes":
 		var v []byte
 		v, err = d.DecodeBytes()
-		item = "x" + fw.Hex(v)
+		rer = func() string { return "x" + fw.Hex(v) }
+		item = rer()
 	case "uint32":
 		var v uint32
 		v, err = d.DecodeUInt32()
@@ -146,62 +152,75 @@ func decCall(d *csproto.Decoder, op decOp) (res decResult) {
 		var v []bool
 		v, err = d.DecodePackedBool()
 		capCells = cap(v)
-		item = "B" + joinU(v, func(b bool) string {
-			if b {
-				return "1"
-			}
-			return "0"
-		})
+		rer = func() string {
+			return "B" + joinU(v, func(b bool) string {
+				if b {
+					return "1"
+				}
+				return "0"
+			})
+		}
+		item = rer()
 	case "pint32":
 		var v []int32
 		v, err = d.DecodePackedInt32()
 		capCells = cap(v)
-		item = "I" + joinU(v, func(x int32) string { return i64s(int64(x)) })
+		rer = func() string { return "I" + joinU(v, func(x int32) string { return i64s(int64(x)) }) }
+		item = rer()
 	case "pint64":
 		var v []int64
 		v, err = d.DecodePackedInt64()
 		capCells = cap(v)
-		item = "I" + joinU(v, func(x int64) string { return i64s(x) })
+		rer = func() string { return "I" + joinU(v, func(x int64) string { return i64s(x) }) }
+		item = rer()
 	case "puint32":
 		var v []uint32
 		v, err = d.DecodePackedUint32()
 		capCells = cap(v)
-		item = "N" + joinU(v, func(x uint32) string { return u64s(uint64(x)) })
+		rer = func() string { return "N" + joinU(v, func(x uint32) string { return u64s(uint64(x)) }) }
+		item = rer()
 	case "puint64":
 		var v []uint64
 		v, err = d.DecodePackedUint64()
 		capCells = cap(v)
-		item = "N" + joinU(v, func(x uint64) string { return u64s(x) })
+		rer = func() string { return "N" + joinU(v, func(x uint64) string { return u64s(x) }) }
+		item = rer()
 	case "psint32":
 		var v []int32
 		v, err = d.DecodePackedSint32()
 		capCells = cap(v)
-		item = "I" + joinU(v, func(x int32) string { return i64s(int64(x)) })
+		rer = func() string { return "I" + joinU(v, func(x int32) string { return i64s(int64(x)) }) }
+		item = rer()
 	case "psint64":
 		var v []int64
 		v, err = d.DecodePackedSint64()
 		capCells = cap(v)
-		item = "I" + joinU(v, func(x int64) string { return i64s(x) })
+		rer = func() string { return "I" + joinU(v, func(x int64) string { return i64s(x) }) }
+		item = rer()
 	case "pfixed32":
 		var v []uint32
 		v, err = d.DecodePackedFixed32()
 		capCells = cap(v)
-		item = "N" + joinU(v, func(x uint32) string { return u64s(uint64(x)) })
+		rer = func() string { return "N" + joinU(v, func(x uint32) string { return u64s(uint64(x)) }) }
+		item = rer()
 	case "pfixed64":
 		var v []uint64
 		v, err = d.DecodePackedFixed64()
 		capCells = cap(v)
-		item = "N" + joinU(v, func(x uint64) string { return u64s(x) })
+		rer = func() string { return "N" + joinU(v, func(x uint64) string { return u64s(x) }) }
+		item = rer()
 	case "pfloat32":
 		var v []float32
 		v, err = d.DecodePackedFloat32()
 		capCells = cap(v)
-		item = "N" + joinU(v, func(x float32) string { return u64s(uint64(math.Float32bits(x))) })
+		rer = func() string { return "N" + joinU(v, func(x float32) string { return u64s(uint64(math.Float32bits(x))) }) }
+		item = rer()
 	case "pfloat64":
 		var v []float64
 		v, err = d.DecodePackedFloat64()
 		capCells = cap(v)
-		item = "N" + joinU(v, func(x float64) string { return u64s(math.Float64bits(x)) })
+		rer = func() string { return "N" + joinU(v, func(x float64) string { return u64s(math.Float64bits(x)) }) }
+		item = rer()
 	case "nested":
 		nd := &nestedDouble{ok: op.a == 1}
 		err = d.DecodeNested(nd)
@@ -215,7 +234,8 @@ func decCall(d *csproto.Decoder, op decOp) (res decResult) {
 	case "skip":
 		var v []byte
 		v, err = d.Skip(int(op.a), csproto.WireType(op.b))
-		item = "x" + fw.Hex(v)
+		rer = func() string { return "x" + fw.Hex(v) }
+		item = rer()
 	case "seek":
 		var pos int64
 		pos, err = d.Seek(op.a, int(op.b))
@@ -243,7 +263,7 @@ func decCall(d *csproto.Decoder, op decOp) (res decResult) {
 	if err != nil {
 		return decResult{reply: "err"}
 	}
-	return decResult{reply: fmt.Sprintf("ok:%s:%d", item, d.Offset()), ok: true, capCells: capCells, item: item}
+	return decResult{reply: fmt.Sprintf("ok:%s:%d", item, d.Offset()), ok: true, capCells: capCells, item: item, rer: rer}
 }
 
 // runDecProgram executes ops on the implementation and returns the request line for the model
@@ -275,7 +295,27 @@ func runDecProgram(fast bool, data []byte, ops []decOp) (req, reply string, resu
 			break
 		}
 	}
+	// every value handed out earlier must still read the same after the later calls on this decoder
+	for i, r := range results {
+		if r.ok && r.rer != nil {
+			if now := r.rer(); now != r.item {
+				heldChanged = append(heldChanged, fmt.Sprintf("result of call %d (%s) was %s when returned and reads %s after the later calls [%s on %s]",
+					i, ops[i].name, trunc(r.item, 120), trunc(now, 120), mode, trunc(fw.Hex(data), 200)))
+			}
+		}
+	}
 	return strings.Join(rq, " ; "), strings.Join(rp, " ; "), results, offsets
+}
+
+// heldChanged collects results that changed after they were handed out; reportHeld turns them into violations.
+var heldChanged []string
+
+func reportHeld(c *fw.Ctx, stream string) {
+	for _, h := range heldChanged {
+		c.Violate(fw.Violation{Stream: stream, Signature: "decode/held-result-changed",
+			What: "a value returned by an earlier decoder call changed when the same Decoder was used again", Input: h, Expected: "unchanged", Got: "changed"})
+	}
+	heldChanged = nil
 }
 
 // stripAlloc drops the model's allocation-request field (`ok:item:off:alloc` → `ok:item:off`),
